@@ -133,7 +133,7 @@ PROPS = {
     "C13": dict(
         level="fault_enumeration",
         technique="fault enumeration over the syscall seam with fork re-arming: every command configuration of the family run fault-free against a dumping helper, and re-run with each parent-side and child-side system call failing; built with and without tiny-std's start feature",
-        steps=[_s("h-spawn", "c13"), _s("h-spawn", "c13-start", bin="h-spawn-start", features=["with-start"])],
+        steps=[_s("h-spawn", "c13"), _s("h-spawn", "c13-start", bin="h-spawn-start", features=["with-start"]), _s("h-spawn", "waitseq")],
         assumptions=["fork (not vfork) semantics; signals during spawn and other threads in the caller are not covered",
                      "Environment::Inherit is exercised through hook H2 in the start build only",
                      "Child::wait returning the raw wait status or the exit code are both accepted"],
